@@ -234,7 +234,7 @@ impl Track {
                     events.push(e.clone());
                     let mut noteoff = e.clone();
                     noteoff.etype = EventType::NoteOff;
-                    noteoff.time = e.time + e.v2;
+                    noteoff.time = e.time.wrapping_add(e.v2);
                     events.push(noteoff);
                 },
                 _ => {
@@ -317,7 +317,7 @@ impl Track {
     }
     pub fn calc_v_on_time(&mut self, def: isize) -> isize {
         let start_time = self.v_on_time_start;
-        let cur_time = self.timepos - start_time;
+        let cur_time = self.timepos.wrapping_sub(start_time);
         let mut result = isize::MIN;
         // on_time?
         let ia = match &self.v_on_time {
@@ -464,7 +464,7 @@ impl Track {
             // println!("CC.T={},{},{}", low, high, len);
             for j in 0..len {
                 if (j % freq) == 0 {
-                    let v = (high - low) as f32 * (j as f32 / len as f32) + low as f32;
+                    let v = high.wrapping_sub(low) as f32 * (j as f32 / len as f32) + low as f32;
                     let v = value_range(0, v as isize, 127);
                     let e = Event::cc(seg_start + j, self.channel, cc_no, v);
                     self.events.push(e);
@@ -480,17 +480,17 @@ impl Track {
             let mut low = ia[i*3+0];
             let mut high = ia[i*3+1];
             if is_big == 0 { // small
-                low = low * 128;
-                high = high * 128;
+                low = low.wrapping_mul(128);
+                high = high.wrapping_mul(128);
             } else { // big
-                low += 8192;
-                high += 8192;
+                low = low.wrapping_add(8192);
+                high = high.wrapping_add(8192);
             }
             // println!("@@@PB.T={},{}", low,high);
             let len = ia[i*3+2];
             for j in 0..len {
                 if (j % freq) == 0 {
-                    let v = (high - low) as f32 * (j as f32 / len as f32) + low as f32;
+                    let v = high.wrapping_sub(low) as f32 * (j as f32 / len as f32) + low as f32;
                     let v = value_range(0, v as isize, 0x7f7f);
                     let e = Event::pitch_bend(seg_start + j, self.channel, v);
                     self.events.push(e);
